@@ -26,6 +26,8 @@ def run(ctx):
     embedding(ctx, P)
     v3_key_id_right_aligned(ctx, P)
     fingerprint_variant_per_version(ctx, P)
+    from rules import c05 as _c05
+    _c05.mpi_constructors_normalise(ctx, P)        # fingerprints are computed over the re-serialised MPIs
     # a recipient field that does not parse must not silently become "no recipient" (the wildcard that matches every key): no error
     # is dropped while the identifiers of ESK packets are read (R-err of C09 restricted to those parsers)
     from rules import stream
